@@ -40,6 +40,7 @@ Record obs := mkObs {
 
 Inductive tag :=
 | TNone
+| TVerbatim (j : nat)                        (* exactly the packet machine j produced, nothing changed *)
 | TBad                                       (* a manipulated packet delivered ahead of the genuine one *)
 | TGenuine (peer : nat) (body key ridx lidx : N).   (* the genuine packet of machine peer; what a clean run completes with *)
 
@@ -190,7 +191,7 @@ Fixpoint spec_c07_scan (c : ccase) (sc : list (action * obs * tag)) (st : list N
       let i := act_target a in
       let cur := nth i st 0 in
       match t with
-      | TNone =>
+      | TNone | TVerbatim _ =>
           (* any other step: a machine that reported failed must keep refusing *)
           (if cur =? 1 then (o_class o =? 1) else true) &&
           spec_c07_scan c rest (if (cur =? 0) && (o_class o =? 1) then upd_state st i 1 else st)
@@ -253,6 +254,35 @@ Definition spec_c05 (c : ccase) : bool :=
                   end
        else true) (cc_keys c).
 
+(* C05 under its literal reading ("completes only if the peer proved it holds the static key"): a responder may
+   complete only on a message 1 that an initiator machine of the script produced and that reached it unmodified.
+   The implementation does not meet this (finding F27: message 1 of IX is unauthenticated); cases checked against
+   this clause are emitted separately (C5Literal) so that the finding never hides another violation. *)
+Definition is_initiator (c : ccase) (j : nat) : bool :=
+  match nth_error (cc_ms c) j with Some s => ms_init s | None => false end.
+
+Definition spec_c05_literal (c : ccase) : bool :=
+  forallb (fun s : action * obs * tag =>
+    let '(a, o, t) := s in
+    match o_res o with
+    | Some _ =>
+        if is_initiator c (act_target a) then true
+        else match t with
+             | TVerbatim j => is_initiator c j
+             | TGenuine j _ _ _ _ => is_initiator c j
+             | _ => false
+             end
+    | None => true
+    end) (cc_script c).
+
+Inductive c05case :=
+| C5Strict (c : ccase)      (* model comparison + what is proved: accepted certificate, key = static, keys bound *)
+| C5Literal (c : ccase).    (* the literal reading only *)
+
 Definition check_c07 (c : ccase) : list N := model_check c ++ flag 2 (spec_c07 c).
 Definition check_c06 (c : ccase) : list N := model_check c ++ flag 2 (spec_c06 c).
-Definition check_c05 (c : ccase) : list N := model_check c ++ flag 2 (spec_c05 c).
+Definition check_c05 (c : c05case) : list N :=
+  match c with
+  | C5Strict c => model_check c ++ flag 2 (spec_c05 c)
+  | C5Literal c => flag 2 (spec_c05_literal c)
+  end.
